@@ -250,7 +250,10 @@ class Parser:
                 self.err("expected a prefix")
             if p in scope.prefixes:
                 self.err("prefix declared twice")
-            scope.prefixes[p] = self.iri_ref()
+            iri = self.iri_ref()
+            if p in ("prov", "xsd") and iri != {"prov": PROV, "xsd": XSD}[p]:
+                self.err("the predeclared prefix %s is re-declared for another namespace" % p)
+            scope.prefixes[p] = iri
 
     def attributes(self, scope, allowed):
         """optionalAttributeValuePairs ::= ( ',' '[' attributeValuePairs ']' )?   (the ',' is consumed by the caller)"""
